@@ -190,6 +190,19 @@ fn execute_net(prop: &str, p: &net::NetProgram) -> RunInfo {
                     }
                 }
             }
+            // the application an error-free run hands back is run a second time (in a new runtime) before it is dropped
+            if ok && p.end_mode == 0 && res.ok.is_some() && p.late_links.is_empty() && p.injections.is_empty() && p.seed % 3 == 0 {
+                let mut q = p.clone();
+                q.rerun = true;
+                let r = net::run_net(&q, &net::RunOpts::default());
+                if r.rerun_from.is_some() {
+                    info.probe("dropped_after_a_second_run");
+                    nontrivial |= pending_msgs(&r);
+                    if !net_oracles::check_c20(&q, &r, &format!("application run twice (second time in a new runtime), max_events {} max_time {} ns drop_order {}", q.max_events, q.max_time_ns, q.drop_order), &mut info) {
+                        ok = false;
+                    }
+                }
+            }
             // another thread of the process waits in `Sim::new` while this simulation runs: it gets its simulation only when
             // this one is gone - completely (remaining events are dropped first here, they are not owned by the simulation)
             if let (true, Some((k, _))) = (ok && p.end_mode == 0, p.intruder) {
